@@ -19,6 +19,8 @@ pub fn render(v: &Value) -> Value {
     "m2" => json!({"all": [{"pattern": "foo($A)"}, {"matches": "U1"}]}),
     "m3" => json!({"all": [{"pattern": "foo($A)"}, {"has": {"matches": "U1", "stopBy": "end"}}]}),
     "m4" => json!({"regex": "abc"}),
+    "m6" => json!({"all": [{"pattern": "foo($A)"}, {"nthChild": {"position": 1, "ofRule": {"matches": "U9"}}}]}),
+    "m7" => json!({"all": [{"pattern": "foo($A)"}, {"nthChild": {"position": 1, "ofRule": {"matches": "U1"}}}]}),
     _ => json!({"all": [{"pattern": "foo($A)"}, {"matches": "U9"}]}),
   };
   let utils = match s("u") {
@@ -37,12 +39,15 @@ pub fn render(v: &Value) -> Value {
     "u11" => json!({"U1": {"matches": "U2", "any": [{"kind": "call_expression"}, {"matches": "U9"}]}, "U2": {"kind": "call_expression"}}),
     "u12" => json!({"U1": {"regex": "foo", "all": [{"matches": "U2"}], "any": [{"matches": "U3"}, {"kind": "number"}]},
                     "U2": {"kind": "call_expression"}, "U3": {"matches": "U2", "regex": "abc"}}),
+    "u13" => json!({"U1": {"kind": "call_expression", "nthChild": {"position": 1, "ofRule": {"matches": "U9"}}}}),
     _ => json!({"U1": {"pattern": "foo($B)"}}),
   };
   let cons = match s("c") {
     "c0" => json!(null),
     "c1" => json!({"A": {"regex": "abc"}}),
     "c2" => json!({"B": {"regex": "abc"}}),
+    "c4" => json!({"A": {"kind": "identifier", "nthChild": {"position": 1, "ofRule": {"matches": "U9"}}}}),
+    "c5" => json!({"A": {"any": [{"kind": "identifier"}, {"matches": "U9"}]}}),
     _ => json!({"A": {"pattern": "$C"}}),
   };
   let sub = |src: &str| json!({"substring": {"source": src}});
@@ -71,6 +76,8 @@ pub fn render(v: &Value) -> Value {
     "r0" => json!(null),
     "r1" => json!([{"id": "R1", "rule": {"pattern": "abc"}, "fix": "xyz"}]),
     "r3" => json!([{"id": "R1", "rule": {"pattern": "abc"}, "fix": "<$A>"}]),
+    "r4" => json!([{"id": "R1", "rule": {"pattern": "abc", "nthChild": {"position": 1, "ofRule": {"matches": "U9"}}}, "fix": "xyz"}]),
+    "r5" => json!([{"id": "R1", "rule": {"any": [{"pattern": "abc"}, {"matches": "U9"}]}, "fix": "xyz"}]),
     _ => json!([{"id": "R1", "rule": {"pattern": "abc"}}]),
   };
   let mut doc = json!({"id": "t", "language": "JavaScript", "rule": rule});
